@@ -26,9 +26,9 @@ func init() {
 		Assumptions: []string{"root", "the reference sender is conforming by construction (STATs ascending, ids = STAT positions, one terminator per id, FIN echoed)"},
 		Cases: func(tier string) int {
 			if tier == "thorough" {
-				return 8000
+				return 15000
 			}
-			return 500
+			return 1000
 		},
 		Batch:         25,
 		MinNontrivial: func(tier string) int { return 100 },
